@@ -222,10 +222,23 @@ def dist_job(metric, dtype, rows, feats, with_out=False):
         except (Exception, KernelAssertion) as e:
             exc = e
 
+        wide = np.dtype(dtype).kind in 'iu' and np.dtype(dtype).itemsize == 8
+
+        def rd(v):
+            # Euclidean / Manhattan are defined on the float64 values of the inputs (the result type): a 64-bit integer beyond
+            # 2^53 is first rounded to the nearest double, exactly as C's (double)v does.  Hamming compares the integers.
+            if not wide:
+                return v
+            if isinstance(v, SVal):
+                from cy2smt import round_to_double
+                return round_to_double(v)
+            import fractions
+            return fractions.Fraction(float(int(v)))
+
         def exact(Xc, yc):
             want = []
             for i in range(rows):
-                d = [Xc[i][j] - yc[j] for j in range(feats)]
+                d = [Xc[i][j] - yc[j] for j in range(feats)] if metric == 'hamming' else [rd(Xc[i][j]) - rd(yc[j]) for j in range(feats)]
                 if metric == 'euclidean':
                     want.append(sum(x * x for x in d))
                 elif metric == 'manhattan':
